@@ -6,6 +6,7 @@ package main
 import (
 	"bufio"
 	"context"
+	"database/sql"
 	"encoding/json"
 	"flag"
 	"fmt"
@@ -115,9 +116,36 @@ func newTxWorld(r *rng, viol func(prop, name, detail string)) *txWorld {
 	}
 	bctx, cancel := context.WithTimeout(context.WithValue(context.Background(), markerKey, beginMarker), time.Hour)
 	_ = cancel
-	tx, err := w.db.Begin(bctx, nil)
+	// transactions begun with options and with a nil context too (what Begin does with them is outside
+	// the properties; what TX.Query, Commit and Rollback do afterwards is not)
+	var opts *sqlair.TXOptions
+	switch r.intn(4) {
+	case 0:
+		opts = &sqlair.TXOptions{Isolation: sql.LevelSerializable, ReadOnly: true}
+	case 1:
+		opts = &sqlair.TXOptions{Isolation: sql.LevelReadCommitted}
+	}
+	nilBegin := r.chance(1, 5)
+	var tx *sqlair.TX
+	var err error
+	func() {
+		defer func() {
+			if rec := recover(); rec != nil {
+				err = fmt.Errorf("PANIC %v", rec)
+			}
+		}()
+		if nilBegin {
+			tx, err = w.db.Begin(nil, opts)
+		} else {
+			tx, err = w.db.Begin(bctx, opts)
+		}
+	}()
 	if err != nil {
-		panic(err)
+		// (Begin is outside the properties: nothing is reported, the script goes on with a default transaction)
+		tx, err = w.db.Begin(bctx, nil)
+		if err != nil {
+			panic(err)
+		}
 	}
 	w.tx = tx
 	for _, ev := range f.log() {
